@@ -54,6 +54,16 @@ def swap_independent(rng, body):
     return body
 
 
+def has_repeat_join(p):
+    """some rule's second clause repeats a variable (order-sensitive plans: simple join vs not)"""
+    for ru in p["rules"]:
+        cls = [it for it in ru["body"] if it[0] == "cl"]
+        if len(cls) >= 2 and ru["body"][:2] == cls[:2]:
+            vs = [a[1] for a in cls[1][2] if a[0] == "v"]
+            if len(vs) != len(set(vs)): return True
+    return False
+
+
 def function_free(p):
     def ok_ex(e): return isinstance(e, int) or (isinstance(e, tuple) and e[0] == "var")
     for ru in p["rules"]:
@@ -118,7 +128,8 @@ def variant_modules(rng, pid, p, tier):
 
 def build(rng, tier):
     nb = 5 if tier == "quick" else 25
-    bases = engcheck.make_programs(rng.fork("c06"), nb) + engcheck.make_programs(rng.fork("c06ff"), nb, genf=gen_ff_program, filt=function_free)
+    bases = engcheck.make_programs(rng.fork("c06"), nb) + engcheck.make_programs(rng.fork("c06ff"), nb, genf=gen_ff_program, filt=function_free) \
+        + engcheck.make_programs(rng.fork("c06rj"), 3 if tier == "quick" else 12, filt=has_repeat_join)
     progs, mods, cases = {}, [], []
     for i, p in enumerate(bases):
         pid = f"m{i}"
@@ -126,7 +137,7 @@ def build(rng, tier):
         for vid, text, kind, vmap in vs:
             progs[vid] = p      # the model always runs the base AST; variants differ only in the Rust text
             mods.append((vid, text))
-        for j in range(3 if tier == "quick" else 10):
+        for j in range(4 if tier == "quick" else 10):
             r2 = rng.fork(f"{pid}i{j}")
             inp = gen.gen_input(r2, p, max_rows=8)
             spec = engcheck.spec_sets(p, inp)
